@@ -6,11 +6,13 @@ package main
 // of every symbolic message with its own SRP client / HKDF / AEAD / Ed25519 (ref_crypto.go).
 
 import (
+	"bytes"
 	"crypto/ed25519"
 	"fmt"
 	"math/rand"
 	"strings"
 	"sync"
+	"time"
 
 	"github.com/brutella/hc/accessory"
 	"github.com/brutella/hc/db"
@@ -698,6 +700,7 @@ func checkC02(c *Ctx) {
 	c.Assume("SRP-6a / HKDF / ChaCha20-Poly1305 / Ed25519 behave like the free term algebra of HcModel/PairSetup.lean (idealisation; exercised on the real primitives)")
 	c02Race(c)
 	c02Repin(c)
+	c02ConcurrentExchanges(c)
 	type hcase struct {
 		id    string
 		nconn int
@@ -1035,4 +1038,81 @@ func c02Repin(c *Ctx) {
 		f.Close()
 	}
 	c.Count(id, true, "stream:repin")
+}
+
+// c02ConcurrentExchanges: several controllers that know the setup code pair at the same time, each on its own connection; their
+// key-exchange messages (M5) are released at the same moment. "…stores exactly that name and key": afterwards the entity stored
+// under each controller's name carries the key THAT controller delivered — not the one another exchange delivered at that moment.
+func c02ConcurrentExchanges(c *Ctx) {
+	for round := 0; round < c.Pick(8, 80); round++ {
+		id := c.CaseID("concurrent-exchanges", round)
+		if c.Skip(id) {
+			continue
+		}
+		r := c.CaseRng("concurrent-exchanges", round)
+		a := accessory.NewSwitch(accessory.Info{Name: "Sw"})
+		f, err := newAccFixture(c, "00102003", a.Accessory)
+		if err != nil {
+			c.Violate("pair-setup fixture cannot be built", id, nil, "fixture", err.Error())
+			return
+		}
+		const k = 3
+		var ids [k]*refIdentity
+		var res [k]*setupResult
+		var arrived sync.WaitGroup
+		arrived.Add(k)
+		release := make(chan struct{})
+		go func() {
+			done := make(chan struct{})
+			go func() { arrived.Wait(); close(done) }()
+			select {
+			case <-done:
+			case <-time.After(3 * time.Second): // an exchange that failed before its M5 never arrives
+			}
+			close(release)
+		}()
+		var wg sync.WaitGroup
+		for n := 0; n < k; n++ {
+			// names of equal length: the documents that are stored have equal lengths too
+			ids[n] = newRefIdentity(rand.New(rand.NewSource(r.Int63())), fmt.Sprintf("%08X-0000-4000-8000-%012X", r.Uint32(), r.Int63n(1<<47)))
+			wg.Add(1)
+			go func(n int) {
+				defer wg.Done()
+				addr := fmt.Sprintf("10.5.%d.%d:7000", round%250, n+1)
+				real := f.Post(addr)
+				once := false
+				post := func(path string, body []byte) (int, []byte, error) {
+					if items, ok := refTlvParse(body); ok && !once {
+						if s, _ := tlvFirst(items, tState); s == 5 {
+							once = true
+							arrived.Done()
+							<-release
+						}
+					}
+					return real(path, body)
+				}
+				res[n] = refPairSetup(rand.New(rand.NewSource(int64(round*k+n))), post, f.pin, ids[n])
+				if !once {
+					arrived.Done()
+				}
+			}(n)
+		}
+		wg.Wait()
+		for n := 0; n < k; n++ {
+			if res[n] == nil || res[n].ErrAt != "" {
+				continue // refused: nothing is claimed for it (that all are served is C04's concern)
+			}
+			in := map[string]interface{}{"controllers_pairing_at_the_same_moment": k, "controller": ids[n].Name, "delivered_key": hx(ids[n].Pub)}
+			e, err := f.db.EntityWithName(ids[n].Name)
+			switch {
+			case err != nil:
+				c.Violate("pair-setup answered a genuine key exchange with success but the pairing is not stored (as it was delivered)", id, in, "stored", err.Error())
+			case !bytes.Equal(e.PublicKey, ids[n].Pub) || e.Name != ids[n].Name:
+				c.Violate("pair-setup stored a name with a key that was not delivered with that name in that exchange", id, in,
+					"the delivered key", fmt.Sprintf("name %q key %s", e.Name, hx(e.PublicKey)))
+			}
+		}
+		c.Count(id, true, "stream:concurrent-exchanges")
+		f.Close()
+	}
 }
